@@ -82,8 +82,11 @@ def run(ctx):
             if why:
                 k0, e0 = links[0]
                 shape = "self-loop" if e0[0] == e0[1] and e0[0] in "ab" else ("leaves-universe" if "c" in e0 or "N" in e0 else "internal")
-                res.violation("EVENTS", FN, f"links={len(links)},shape={shape},stale-index-on-outside-vertex={stale is not None}",
-                              f"links {links}, outside vertex carries stale index {stale}, callbacks {'given' if cbs else 'None'}: {why}", replay=replay(links, stale, cbs))
+                special = stale if isinstance(stale, str) else None
+                res.violation("EVENTS", FN, f"links={len(links)},shape={shape}," + (f"variant={special}" if special else f"stale-index-on-outside-vertex={stale is not None}"),
+                              f"links {links}, " + ({"network-kwargs-directed": "network_kwargs={'directed': True}", "class-level-names-as-user-attributes": f"links carrying user attributes named {class_level_names(h)} (0 on directed links, 'no' on the others)",
+                                                    "equal-to-member": "outside vertex compares equal to a member", "falsy-vertices": "vertices whose truth value is False"}.get(special, special) if special
+                                                   else f"outside vertex carries stale index {stale}") + f", callbacks {'given' if cbs else 'None'}: {why}", replay=replay(links, stale if not special or special in ("equal-to-member", "falsy-vertices") else None, cbs))
     res.rule("EVENTS", n)
     # ---- universe sizes other than two: ids 0..n-1 in universe order, one node each; the empty universe gives an empty network
     for members in ([], ["c"], ["b", "c", "a"], ["a", "b", "c", "d"]):
